@@ -68,6 +68,14 @@ func c10Stream(r *fw.Rand, mtu int) (calls []c10Call, expect [][]byte, pairs map
 			case 2, 3: // SPS+PPS pair
 				sps := gen.H264Unit(r, 7, r.Pick(2, 3, 8, 20, r.Range(2, 40), mtu/2))
 				pps := gen.H264Unit(r, 8, r.Pick(2, 3, 5, r.Range(2, 20), mtu/2))
+				if mtu >= 10 && r.Chance(1, 3) {
+					// 1 + 2 + |SPS| + 2 + |PPS| lands on MTU-1, MTU or MTU+1
+					ps := r.Range(2, mtu-8)
+					ss := mtu - 5 - ps + r.Pick(-1, 0, 1)
+					if ss >= 2 && ss < 60000 {
+						sps, pps = gen.H264Unit(r, 7, ss), gen.H264Unit(r, 8, ps)
+					}
+				}
 				all = append(all, sps, pps)
 				kinds = append(kinds, 'S', 'P')
 				needSlice = true
